@@ -226,7 +226,7 @@ if any of equation in Or(<1>, ...) is UnknownStackValue then `true_values` for O
 
 from abc import ABC, abstractmethod
 import logging
-from typing import TYPE_CHECKING, Any, Dict, List, Tuple, Set
+from typing import TYPE_CHECKING, Any, Dict, List, Optional, Tuple, Set
 from collections import defaultdict
 
 from tealer.analyses.dataflow.transaction_context.utils.key_helpers import (
@@ -263,6 +263,7 @@ if TYPE_CHECKING:
     from tealer.teal.teal import Teal
     from tealer.teal.functions import Function
     from tealer.teal.basic_blocks import BasicBlock
+    from tealer.teal.subroutine import Subroutine
     from tealer.teal.instructions.instructions import Instruction
 
 
@@ -699,6 +700,36 @@ class DataflowTransactionContext(ABC):  # pylint: disable=too-few-public-methods
         for key in analysis_keys:
             self._block_contexts[key] = global_reachout[key]
 
+    def _may_exit_program(
+        self, subroutine: "Subroutine", visited: Optional[List["Subroutine"]] = None
+    ) -> bool:
+        """Return True if the execution of the subroutine might end the program instead of returning.
+
+        The program might end in a block of the subroutine or in one of the subroutines called by it.
+        Blocks which always fail are not considered.
+
+        Args:
+            subroutine: The subroutine.
+            visited: Subroutines already considered.
+
+        Returns:
+            True if the program might successfully terminate before the subroutine returns to its caller.
+        """
+        if visited is None:
+            visited = []
+        if subroutine in visited:
+            return False
+        visited.append(subroutine)
+        for exit_block in subroutine.exit_blocks:
+            if not exit_block.is_retsub_block and not isinstance(
+                exit_block.exit_instr, (Err, TealerCustomErrInstruction)
+            ):
+                return True
+        for called_subroutine in subroutine.called_subroutines:
+            if self._may_exit_program(called_subroutine, visited):
+                return True
+        return False
+
     def _calculate_livein(
         self, key: str, block: "BasicBlock", liveout: Dict["BasicBlock", Any]
     ) -> Any:
@@ -711,8 +742,10 @@ class DataflowTransactionContext(ABC):  # pylint: disable=too-few-public-methods
             block.is_callsub_block
             and block.sub_return_point is not None
             and len(block.called_subroutine.retsub_blocks) != 0
+            and not self._may_exit_program(block.called_subroutine)
         ):
             # this block is the `callsub block` and `block.sub_return_point` is the block that will be executed after subroutine.
+            # if the program can end in the subroutine then the checks after the call are not performed on every execution.
             livein_information = self._intersection(
                 key, livein_information, liveout[block.sub_return_point]
             )
